@@ -51,11 +51,12 @@ int mantis_parallel_ecb_init(MantisParallelECB_t *ecb)
     MantisKey_t *ctx;
     if (!ecb)
         return 0;
+    ecb->vtable = 0;
+    ecb->ctx = 0;
+    ecb->parallel_size = 8 * MANTIS_BLOCK_SIZE;
     if ((ctx = calloc(1, sizeof(MantisKey_t))) == NULL)
         return 0;
-    ecb->vtable = 0;
     ecb->ctx = ctx;
-    ecb->parallel_size = 8 * MANTIS_BLOCK_SIZE;
     if (_skinny_has_vec128())
         ecb->vtable = &mantis_parallel_ecb_vec128;
     return 1;
